@@ -159,9 +159,8 @@ Proof. reflexivity. Qed.
 Lemma marker_is : exists m', s_literalType = x22 :: x5e :: m'.
 Proof. eexists. reflexivity. Qed.
 
-(* id: ASCII, no double quote, no backslash, not starting with ^ or @ (those spellings are listed findings) *)
-Definition pred_id_ok (id : list byte) : Prop :=
-  plain_body id /\ match id with [] => True | a :: _ => bz a <> 94%Z /\ bz a <> 64%Z end.
+(* id: ASCII, no double quote, no backslash *)
+Definition pred_id_ok (id : list byte) : Prop := plain_body id.
 (* time anchor text: ASCII without double quote, ']' and ',' *)
 Definition anchor_byte (b : byte) : Prop := (bz b < 128)%Z /\ bz b <> 34%Z /\ bz b <> 93%Z /\ bz b <> 44%Z.
 
@@ -200,22 +199,22 @@ Lemma skipn_app_ge {A} : forall (x y : list A) q, length x <= q -> skipn q (x ++
 Proof. induction x as [|a x IH]; intros y q H; cbn [app length]; [now rewrite Nat.sub_0_r|]. destruct q; [cbn in H; lia|]. cbn. apply IH. cbn in H. lia. Qed.
 
 Lemma pred_decision id an : pred_id_ok id -> Forall noquote_byte an ->
-  let text := map fst (pred_runes id an) in
-  index_of (zs s_literalType) text = None /\ exists p, index_of (zs s_anchor) text = Some p /\ 0 < p.
+  let text := tl (map fst (pred_runes id an)) in
+  index_of (zs s_literalType) text = None /\ exists p, index_of (zs s_anchor) text = Some p.
 Proof.
-  intros [Hid Hhd] Han text. destruct marker_is as (m' & Em).
-  assert (Et : text = 34%Z :: map bz id ++ 34%Z :: 64%Z :: 91%Z :: (map bz an ++ [93%Z])).
+  intros Hid Han text. destruct marker_is as (m' & Em).
+  assert (Et : text = map bz id ++ 34%Z :: 64%Z :: 91%Z :: (map bz an ++ [93%Z])).
   { subst text. unfold pred_runes. rewrite anchor_is. rewrite !map_app, !map_fst_ascii. reflexivity. }
   assert (NA : Forall (fun z => z <> 34%Z) (map bz id)).
   { apply Forall_map. eapply Forall_impl; [|exact Hid]. cbn. tauto. }
   assert (NB : Forall (fun z => z <> 34%Z) (64%Z :: 91%Z :: (map bz an ++ [93%Z]))).
   { constructor; [lia|]. constructor; [lia|]. apply Forall_app. split; [|repeat constructor; lia].
     apply Forall_map. eapply Forall_impl; [|exact Han]. unfold noquote_byte. cbn. tauto. }
-  (* where a pattern starting with a quote can match inside text: only at 0 and at |id|+1 *)
-  assert (Only : forall pat q, is_prefix (34%Z :: pat) (skipn q text) = true -> q = 0 \/ q = S (length id)).
-  { intros pat q H. rewrite Et in H. destruct q as [|q]; [now left|]. right. cbn [skipn] in H.
+  (* a pattern starting with a quote can match inside text only at |id| *)
+  assert (Only : forall pat q, is_prefix (34%Z :: pat) (skipn q text) = true -> q = length id).
+  { intros pat q H. rewrite Et in H.
     destruct (Nat.lt_ge_cases q (length (map bz id))) as [L|L].
-    - rewrite skipn_app_lt in H by lia.
+    - exfalso. rewrite skipn_app_lt in H by lia.
       destruct (skipn q (map bz id)) as [|z zs0] eqn:Es.
       + apply (f_equal (@length Z)) in Es. rewrite skipn_length in Es. cbn in Es. lia.
       + assert (Hz : z <> 34%Z).
@@ -223,27 +222,18 @@ Proof.
           rewrite Forall_forall in NA. apply NA. rewrite <- (firstn_skipn q (map bz id)). apply in_or_app. now right. }
         cbn [app is_prefix] in H. destruct (Z.eqb_spec 34 z); [congruence|discriminate].
     - rewrite skipn_app_ge in H by lia. rewrite map_length in *.
-      destruct (q - length id) as [|d] eqn:Ed; [f_equal; lia|].
-      cbn [skipn] in H. rewrite (is_prefix_no_quote pat _ d NB) in H. discriminate. }
+      destruct (q - length id) as [|d] eqn:Ed; [lia|].
+      exfalso. cbn [skipn] in H. rewrite (is_prefix_no_quote pat _ d NB) in H. discriminate. }
   split.
   - apply index_of_none. intro q. rewrite Em. cbn [zs map]. change (bz x22) with 34%Z.
     destruct (is_prefix (34%Z :: bz x5e :: map bz m') (skipn q text)) eqn:E; [|reflexivity]. exfalso.
-    destruct (Only _ _ E) as [->| ->]; rewrite Et in E.
-    + cbn [skipn is_prefix] in E. rewrite Z.eqb_refl in E. cbn [andb] in E. change (bz x5e) with 94%Z in E.
-      destruct id as [|a id]; cbn [map app is_prefix] in E; [discriminate|].
-      destruct Hhd as [H1 _]. destruct (Z.eqb_spec 94 (bz a)); [congruence|discriminate].
-    + cbn [skipn] in E. rewrite skipn_app_ge in E by (rewrite map_length; lia). rewrite map_length, Nat.sub_diag in E.
-      cbn in E. discriminate.
-  - assert (M : is_prefix (zs s_anchor) (skipn (S (length id)) text) = true).
-    { rewrite Et, anchor_is. cbn [skipn]. rewrite skipn_app_ge by (rewrite map_length; lia). rewrite map_length, Nat.sub_diag.
-      reflexivity. }
+    rewrite (Only _ _ E) in E. rewrite Et in E.
+    rewrite skipn_app_ge in E by (rewrite map_length; lia). rewrite map_length, Nat.sub_diag in E. cbn in E. discriminate.
+  - assert (M : is_prefix (zs s_anchor) (skipn (length id) text) = true).
+    { rewrite Et, anchor_is. rewrite skipn_app_ge by (rewrite map_length; lia). rewrite map_length, Nat.sub_diag. reflexivity. }
     destruct (index_of_complete _ _ _ M) as (p & Ep & Hp).
-    { rewrite Et. cbn [length]. rewrite app_length, map_length. cbn. lia. }
-    exists p. split; [exact Ep|]. apply index_of_sound in Ep. rewrite anchor_is in Ep. cbn [zs map] in Ep.
-    destruct p as [|p]; [|lia]. exfalso. rewrite Et in Ep. cbn [skipn is_prefix] in Ep.
-    change (bz x22) with 34%Z in Ep. rewrite Z.eqb_refl in Ep. cbn [andb] in Ep. change (bz x40) with 64%Z in Ep.
-    destruct id as [|a id]; cbn [map app is_prefix] in Ep; [discriminate|].
-    destruct Hhd as [_ H2]. destruct (Z.eqb_spec 64 (bz a)); [congruence|discriminate].
+    { rewrite Et. rewrite app_length, map_length. cbn. lia. }
+    exists p. exact Ep.
 Qed.
 
 Lemma pred_loop_body l : forall body tl0 ps, plain_body body ->
@@ -281,10 +271,10 @@ Lemma pred_first_steps id an l : pred_id_ok id -> Forall noquote_byte an -> rest
 Proof.
   intros Hid Han Hrest. split; [|split].
   - apply (lex_token_quote l (ascii_runes id ++ ascii_runes s_anchor ++ ascii_runes an ++ [(93%Z, 1)])). exact Hrest.
-  - cbn [step]. unfold lex_pred_or_lit. rewrite Hrest. destruct (pred_decision id an Hid Han) as (E1 & p & E2 & Hp).
-    cbn zeta in E1, E2. rewrite E1, E2. destruct (Nat.ltb_spec 0 p); [reflexivity|lia].
+  - cbn [step]. unfold lex_pred_or_lit. rewrite Hrest. destruct (pred_decision id an Hid Han) as (E1 & p & E2).
+    cbn zeta in E1, E2. rewrite E1, E2. reflexivity.
   - cbn [step]. unfold lex_predicate. rewrite Hrest. unfold pred_runes. cbn [ascii_runes map app].
-    fold (ascii_runes id). rewrite pred_loop_body by apply Hid.
+    fold (ascii_runes id). rewrite pred_loop_body by exact Hid.
     rewrite pred_loop_quote by reflexivity. rewrite consume_self. f_equal. lia.
 Qed.
 
@@ -297,7 +287,7 @@ Theorem printed_predicate : forall id an, pred_id_ok id -> Forall anchor_byte an
 Proof.
   intros id an Hid Han inp. unfold lex_with, lex_runes. rewrite pred_decode.
   2:{ subst inp. constructor; [reflexivity|]. apply Forall_app. split.
-      - destruct Hid as [Hid _]. eapply Forall_impl; [|exact Hid]. cbn. tauto.
+      - eapply Forall_impl; [|exact Hid]. cbn. tauto.
       - apply Forall_app. split; [repeat constructor|]. apply Forall_app. split; [|repeat constructor].
         eapply Forall_impl; [|exact Han]. intros a0 [H0 _]. exact H0. }
   assert (Er : ascii_runes inp = pred_runes id an).
@@ -321,7 +311,7 @@ Proof.
   { apply Forall_app. split; [now apply anchor_noquote|]. constructor; [split; [reflexivity|discriminate]|now apply anchor_noquote]. }
   rewrite pred_decode.
   2:{ subst inp. constructor; [reflexivity|]. apply Forall_app. split.
-      - destruct Hid as [Hid _]. eapply Forall_impl; [|exact Hid]. cbn. tauto.
+      - eapply Forall_impl; [|exact Hid]. cbn. tauto.
       - apply Forall_app. split; [repeat constructor|]. apply Forall_app. split; [|repeat constructor].
         eapply Forall_impl; [|exact Han]. intros a0 [H0 _]. exact H0. }
   assert (Er : ascii_runes inp = pred_runes id (a1 ++ x2c :: a2)).
